@@ -449,7 +449,42 @@ func v0Multisig(m int, pubs [][]byte) []byte {
 	return append(s, byte(0x50+len(pubs)), 0xae)
 }
 
+// v0GenMixedOutput draws asset, value and nonce kinds independently (explicit or committed asset,
+// explicit or committed value, null or 33-byte nonce: all eight combinations), with or without
+// proofs. Whether the proofs travel with a witness UTXO is decided by the nonce alone.
+func v0GenMixedOutput(r *Rng, script []byte) *transaction.TxOutput {
+	o := &transaction.TxOutput{Script: script}
+	if r.Bool() {
+		o.Asset = append([]byte{1}, r.Bytes(32)...)
+	} else {
+		o.Asset = append([]byte{byte(r.Pick(10, 11))}, r.Bytes(32)...)
+	}
+	if r.Bool() {
+		o.Value = append([]byte{1}, r.Bytes(8)...)
+	} else {
+		o.Value = append([]byte{byte(r.Pick(8, 9))}, r.Bytes(32)...)
+	}
+	if r.Bool() {
+		o.Nonce = []byte{0}
+	} else {
+		o.Nonce = append([]byte{byte(r.Pick(2, 3))}, r.Bytes(32)...)
+	}
+	switch r.Intn(4) {
+	case 0: // no proofs
+	case 1:
+		o.RangeProof = r.Bytes(r.Pick(1, 60, 300))
+	case 2:
+		o.SurjectionProof = r.Bytes(r.Pick(1, 67))
+	default:
+		o.RangeProof, o.SurjectionProof = r.Bytes(r.Pick(60, 0xfd, 2893)), r.Bytes(r.Pick(67, 131))
+	}
+	return o
+}
+
 func v0GenOutput(r *Rng, script []byte) *transaction.TxOutput {
+	if r.Chance(20) {
+		return v0GenMixedOutput(r, script)
+	}
 	switch k := r.Intn(100); {
 	case k < 45: // explicit
 		return transaction.NewTxOutput(append([]byte{1}, r.Bytes(32)...), append([]byte{1}, r.Bytes(8)...), script)
